@@ -285,6 +285,11 @@ def clause_cells(ctx, dets):
                     continue
                 ctx.ob("MC-count", ev.func.qualname, "raise %s in cell %s" % (ev.exc, label), (not counted) or allowed_after,
                        "an update that is rejected must not be counted", ev, nontrivial=False)
+    if any(ci.name == "PCACD" for ci in dets):
+        pcacd_pair(ctx)
+
+
+def pcacd_pair(ctx):
     # PCACD: drift is only ever stored together with the rebuild flag
     tr = ctx.trace("PCACD", "update", assume={"_drift_state": None}, nonnull=("X",))
     n = 0
@@ -543,6 +548,12 @@ RECS = ["DDM", "EDDM", "LinearFourRates", "STEPD", "ADWIN", "ADWINAccuracy"]
 
 def clause_recs(ctx):
     clause_recs_for(ctx, RECS)
+    from . import common
+    for n in ("DDM", "EDDM", "LinearFourRates"):
+        common.recs_table(ctx, n, NONNULL[n])
+    common.recs_table_stepd(ctx, NONNULL["STEPD"])
+    for ci in q.public_detectors(ctx)[0]:
+        common.init_base(ctx, ci.name)
 
 
 def clause_recs_for(ctx, names):
